@@ -101,10 +101,11 @@ func (s *socket) SendMsg(m *protocol.Message) error {
 }
 
 func (s *socket) RecvMsg() (*protocol.Message, error) {
+	timeQ := nilQ
 	for {
-		timeQ := nilQ
 		s.Lock()
-		if s.recvExpire > 0 {
+		if s.recvExpire > 0 && timeQ == nil {
+			// armed once: a queue resize must not restart the deadline
 			timeQ = time.After(s.recvExpire)
 		}
 		closeQ := s.closeQ
